@@ -22,7 +22,9 @@ import (
 //
 // Rig: a fake rtp.Depacketizer. RTP payload = [flags][seq hi][seq lo][ts ×4][copy][bodylen][body…]; flags bit0 is the
 // partition-head bit, the partition tail is the RTP marker bit, Unmarshal strips the flags byte. So every emitted
-// sample decodes to the exact list of pushes (sequence number + copy number) it was built from.
+// sample decodes to the exact list of pushes (sequence number + copy number) it was built from. 15 % of the non-hostile
+// cases use pion/rtp's H264Packet / VP8Packet / OpusPacket instead; there each payload carries an 8-byte token
+// (C3 31 seq seq copy A5 5A 3C) that is searched for in Sample.Data.
 //
 // Oracle (written against the statement, shares no code with the SampleBuilder):
 //  (1) a sample is the concatenation of Unmarshal(payload) of pushed packets with consecutive sequence numbers
@@ -33,6 +35,15 @@ import (
 //      packet of the oldest incomplete frame and the newest packet never exceeds maxLate (and its timestamp span never
 //      exceeds the WithMaxTimeDelay window): after Flush every frame came out exactly once;
 //  plus: the release handler is called at most once per pushed *rtp.Packet, and only for pushed packets.
+//
+// Signatures (cause or input class, never data): malformed-sample, sample-from-unpushed-packet, non-contiguous-run,
+// mixed-timestamps[:marker-packet-of-next-timestamp-appended], not-at-partition-head, out-of-order, packet-in-two-samples
+// [:suffix-of-emitted-sample-reemitted], duplicate-emitted-twice, late-{duplicate,packet}-on-{empty,nonempty}-buffer
+// (the offending packet was pushed when the builder was already past it), order-or-single-use-broken:purge-window-below-
+// one-frame, complete-frame-not-emitted[:stream-start-reordered-across-first-pop | :frame-completes-on-maxlate-overflow],
+// double-release, release-of-unknown-packet, pop-never-returns-nil.
+//
+// Debug: VERIF_C31_TRACE=1 prints ops/samples/releases of the replayed case; VERIF_C31_STATS=1|2 prints a violation tally.
 
 const c31SampleRate = 90000
 
@@ -123,20 +134,21 @@ type c31Op struct {
 }
 
 type c31Case struct {
-	Class    string
-	MaxLate  uint16
-	DelayMs  int // 0: WithMaxTimeDelay not used
-	Headers  bool
-	Codec    string // "" = the self-describing fake depacketizer; "h264", "vp8", "opus" = pion/rtp codecs + token scan
-	Pkts     []c31Pkt
-	Ops      []c31Op
-	Conserve bool    // oracle (3) applies
-	StrictSpan int   // conservation: see c31Required
-	Frames   [][]int // U lists of the frames (conservation)
-	Note     string
-	Plain    bool // delivery is the plain in-order loss-free stream
-	WrapSeq  bool
-	WrapTS   bool
+	Class      string
+	MaxLate    uint16
+	DelayMs    int // 0: WithMaxTimeDelay not used
+	Headers    bool
+	Codec      string // "" = the self-describing fake depacketizer; "h264", "vp8", "opus" = pion/rtp codecs + token scan
+	Pkts       []c31Pkt
+	Ops        []c31Op
+	Conserve   bool    // oracle (3) applies
+	StrictSpan int     // conservation: see c31Required
+	Frames     [][]int // U lists of the frames (conservation)
+	Note       string
+	Plain      bool // delivery is the plain in-order loss-free stream
+	WrapSeq    bool
+	WrapTS     bool
+	MaxStep    uint32 // largest timestamp step between two frames
 }
 
 func (c *c31Case) opStrings() []string {
@@ -180,6 +192,7 @@ type c31Stream struct {
 	frames  [][]int
 	wrapSeq bool
 	wrapTS  bool
+	maxStep uint32 // largest timestamp step between two frames
 }
 
 func c31GenStream(r *kit.Rand, nFrames int, hostile bool, codec string) c31Stream {
@@ -268,6 +281,9 @@ func c31GenStream(r *kit.Rand, nFrames int, hostile bool, codec string) c31Strea
 		if hostile && r.Chance(0.05) {
 			step = 0 // two frames with one timestamp
 		}
+		if step > st.maxStep {
+			st.maxStep = step
+		}
 		old := ts
 		ts += step
 		if ts < old {
@@ -352,7 +368,7 @@ func c31Displace(r *kit.Rand, order []int, depth int) {
 }
 
 func c31AddPops(r *kit.Rand, c *c31Case, pushes []int, allowFlush, holdUntilFirst bool) {
-	popMode := r.Intn(5) // 0 never, 1 rare, 2 often, 3 drain after every push, 4 bursts
+	popMode := r.Intn(5)   // 0 never, 1 rare, 2 often, 3 drain after every push, 4 bursts
 	hold := holdUntilFirst // no Pop before the first packet of the stream was pushed
 	for _, pi := range pushes {
 		c.Ops = append(c.Ops, c31Op{'P', pi})
@@ -406,7 +422,7 @@ func c31Gen(r *kit.Rand, idx int) *c31Case {
 	case 0: // conservation: loss-free, bounded reorder, maxLate derived from the delivery order
 		c.Class = "conserve"
 		st := c31GenStream(r, nFrames, false, c.Codec)
-		c.WrapSeq, c.WrapTS = st.wrapSeq, st.wrapTS
+		c.WrapSeq, c.WrapTS, c.MaxStep = st.wrapSeq, st.wrapTS, st.maxStep
 		order := make([]int, len(st.pkts))
 		for i := range order {
 			order[i] = i
@@ -444,7 +460,7 @@ func c31Gen(r *kit.Rand, idx int) *c31Case {
 		hostile := class == 3
 		c.Class = []string{"", "lossy", "dups", "hostile"}[class]
 		st := c31GenStream(r, nFrames, hostile, c.Codec)
-		c.WrapSeq, c.WrapTS = st.wrapSeq, st.wrapTS
+		c.WrapSeq, c.WrapTS, c.MaxStep = st.wrapSeq, st.wrapTS, st.maxStep
 		c.MaxLate = kit.Pick(r, c31MaxLates)
 		if hostile && r.Chance(0.1) {
 			c.MaxLate = uint16(kit.Pick(r, []int{0, 3, 32767, 65535}))
@@ -665,7 +681,7 @@ type c31Result struct {
 	popNil      int
 	divergence  map[string]int
 	framesOut   int
-	lastUs      []int // unwrapped positions of the previous sample's packets
+	sampleUs    map[int][]int // sample number -> unwrapped positions of its packets
 }
 
 type c31PushState struct {
@@ -679,7 +695,7 @@ type c31PushState struct {
 }
 
 func c31Exec(c *c31Case) *c31Result { //nolint:gocognit,cyclop,maintidx
-	res := &c31Result{divergence: map[string]int{}}
+	res := &c31Result{divergence: map[string]int{}, sampleUs: map[int][]int{}}
 	viol := func(sig, format string, a ...any) {
 		if len(res.viols) < 4 {
 			res.viols = append(res.viols, c31Viol{sig, fmt.Sprintf(format, a...)})
@@ -753,11 +769,12 @@ func c31Exec(c *c31Case) *c31Result { //nolint:gocognit,cyclop,maintidx
 	}
 	sb := samplebuilder.New(c.MaxLate, dep, c31SampleRate, opts...)
 
-	// maxLate 0/1: one cause (the purge loop steps filled.head/active.head past the tail, packets are orphaned in the ring
-	// and come out much later) shows as either symptom, so both share one signature keyed by the input class.
+	// Purge window below one frame (maxLate 0/1, or a max time delay shorter than a frame interval, so that the purge loop
+	// runs on nearly every push): one cause (the loop steps filled.head/active.head past the tail, packets are orphaned in
+	// the ring and come out much later) shows as either symptom, so both share one signature keyed by the input class.
 	generic := func(sig string) string {
-		if c.MaxLate <= 1 {
-			return "order-or-single-use-broken:maxlate<=1"
+		if c.MaxLate <= 1 || (c.DelayMs > 0 && int64(c.DelayMs)*c31SampleRate/1000 < int64(c.MaxStep)) {
+			return "order-or-single-use-broken:purge-window-below-one-frame"
 		}
 
 		return sig
@@ -839,12 +856,11 @@ func c31Exec(c *c31Case) *c31Result { //nolint:gocognit,cyclop,maintidx
 		if trace {
 			fmt.Printf("      sample #%d %v\n", n, lst)
 		}
-		defer func() {
-			res.lastUs = res.lastUs[:0]
-			for _, pi := range idxs {
-				res.lastUs = append(res.lastUs, states[pi].pkt.U)
-			}
-		}()
+		us := make([]int, len(idxs))
+		for j, pi := range idxs {
+			us[j] = states[pi].pkt.U
+		}
+		res.sampleUs[n] = us
 		first := states[idxs[0]].pkt
 		for j := 1; j < len(idxs); j++ {
 			p, q := states[idxs[j-1]].pkt, states[idxs[j]].pkt
@@ -889,13 +905,14 @@ func c31Exec(c *c31Case) *c31Result { //nolint:gocognit,cyclop,maintidx
 				sig := classify(pi, true)
 				if !(states[pi].isDup && states[pi].dupAfter) {
 					// are the sequence numbers of this sample exactly the tail of the previous sample's?
-					prevU, suffix := res.lastUs, len(res.lastUs) >= len(idxs)
+					prevU := res.sampleUs[emittedIn[u]] // the sample that already contained this packet
+					suffix := len(prevU) >= len(idxs)
 					for j := 0; suffix && j < len(idxs); j++ {
 						suffix = prevU[len(prevU)-len(idxs)+j] == states[idxs[j]].pkt.U
 					}
 					switch {
 					case suffix:
-						sig = "packet-in-two-samples:suffix-of-previous-sample-reemitted"
+						sig = "packet-in-two-samples:suffix-of-emitted-sample-reemitted"
 					case prev == pi:
 						sig = generic("packet-in-two-samples")
 					}
@@ -1048,7 +1065,7 @@ func c31Exec(c *c31Case) *c31Result { //nolint:gocognit,cyclop,maintidx
 // ------------------------------------------------------------------ test
 
 func TestVerifC31(t *testing.T) {
-	run := kit.Start(t, "C31", "op lists (push/pop/flush) over generated frame streams fed to a real SampleBuilder with a self-describing fake depacketizer: "+
+	run := kit.Start(t, "C31", "op lists (push/pop/flush) over generated frame streams fed to a real SampleBuilder with a self-describing fake depacketizer (15% of non-hostile cases: pion/rtp H264/VP8/Opus depacketizers + payload tokens): "+
 		"13 scripted witnesses + seeded random streams in 4 classes (conserve: loss-free bounded reorder with maxLate derived from the delivery, sub-modes core/start/tight; lossy; dups; hostile flags/padding/bursts); "+
 		"a case is non-trivial when at least 3 samples came out and the delivery is not the plain in-order loss-free stream; distinct by the full op list + options")
 	defer run.Finish()
@@ -1056,7 +1073,7 @@ func TestVerifC31(t *testing.T) {
 	run.Assume("this SampleBuilder version has no PopWithTimestamp; Sample.PacketTimestamp is compared with the run's timestamp and only counted (not part of the statement)")
 
 	scripted := c31Scripted()
-	n := len(scripted) + kit.N(3000, 100000)
+	n := len(scripted) + kit.N(3000, 40000)
 	var mu sync.Mutex
 	classSeen := map[string]int{}
 
